@@ -401,3 +401,25 @@ Print Assumptions T07j_shared_buffer_refuted.
 
 Example T07j_example : read (evals true (fst (eval_into true [] [[1]])) [[[2]]; [[3]]]) 0 = [[1]].
 Proof. reflexivity. Qed.
+
+(* ---- T07k. when estimate(run_bootstrap=True) is left -- normally or by a fault inside any re-estimation -- the calculation
+        engine holds the estimation data again (the restore sits in the `finally` clause read from the source on this run), so
+        that later estimations / evaluations by the same object concern the stated likelihood; were the restore done only after
+        a completed loop, a fault would leave the last resample. *)
+Theorem T07k_engine_restored : forall (D : Type) (e : D) rs, fst (bootstrap_engine bootstrap_restores_in_finally e rs) = e.
+Proof. exact engine_restored_generated. Qed.
+Print Assumptions T07k_engine_restored.
+
+Theorem T07k_engine_not_restored_refuted : exists (e : nat) rs, fst (bootstrap_engine false e rs) <> e.
+Proof. exact engine_not_restored_refuted. Qed.
+Print Assumptions T07k_engine_not_restored_refuted.
+
+Theorem T07k_bootstrap_finally :
+  bootstrap_finally =
+  ["self._saving_suspended = False";
+   "if self.database.is_panel(): self.theC.setDataMap(self.database.individualMap) else: self.theC.setData(self.database.data)"]%string.
+Proof. exact bootstrap_finally_ok. Qed.
+Print Assumptions T07k_bootstrap_finally.
+
+Example T07k_example : bootstrap_engine true 0%nat [(1%nat, Done); (2%nat, Fault); (3%nat, Done)] = (0%nat, false).
+Proof. reflexivity. Qed.
